@@ -30,7 +30,7 @@ impl EncReport {
 fn reference(enc: &'static Encoding, bytes: &[u8]) -> String { enc.decode_without_bom_handling(bytes).0.into_owned() }
 
 #[derive(Default, Clone, Debug, PartialEq)]
-struct Seen { text: String, attr: Option<String>, comment: Option<String>, text_locs: Vec<(usize, usize, bool)>, out: Vec<u8>, err: Option<String> }
+struct Seen { text: String, attr: Option<String>, comment: Option<String>, names: Vec<(String, String)>, text_locs: Vec<(usize, usize, bool)>, out: Vec<u8>, err: Option<String> }
 
 fn run(enc: &'static Encoding, doc: &[u8], cut: Option<usize>) -> Seen {
     let seen = Rc::new(RefCell::new(Seen::default()));
@@ -48,6 +48,7 @@ fn run(enc: &'static Encoding, doc: &[u8], cut: Option<usize>) -> Seen {
             Ok(())
         }))
         .append_element_content_handler(element!("a", move |el| { s2.borrow_mut().attr = el.get_attribute("t"); Ok(()) }))
+        .append_element_content_handler(element!("*", { let s4 = seen.clone(); move |el| { s4.borrow_mut().names.push((el.tag_name(), el.tag_name_preserve_case())); Ok(()) } }))
         .append_element_content_handler(comments!("p", move |c| { s3.borrow_mut().comment = Some(c.text()); Ok(()) }));
     let mut err = None;
     {
@@ -93,6 +94,18 @@ fn check_payload(enc: &'static Encoding, payload: &[u8], rep: &mut EncReport) {
         let r = run(enc, &d2, cut);
         rep.cases += 1;
         if r.attr.as_deref() != Some(want.as_str()) { rep.fail("attribute value is not the correct decoding of the input bytes", enc, &d2, cut, format!("read {:?}, reference {:?}", r.attr, want)); }
+    }
+    // (4) tag names: tag_name() is the ASCII-lowercased decoding, tag_name_preserve_case() the decoding itself
+    let mut d4 = b"<X".to_vec();
+    d4.extend_from_slice(payload);
+    d4.extend_from_slice(b">");
+    let mut nb = b"X".to_vec();
+    nb.extend_from_slice(payload);
+    let want_name = reference(enc, &nb);
+    for cut in [None, Some(2 + payload.len() / 2)] {
+        let r = run(enc, &d4, cut);
+        rep.cases += 1;
+        if r.names != vec![(want_name.to_ascii_lowercase(), want_name.clone())] { rep.fail("tag_name()/tag_name_preserve_case() are not the (ASCII-lowercased) decoding of the name bytes", enc, &d4, cut, format!("read {:?}, reference {:?}", r.names, want_name)); }
     }
     for cut in [None, Some(7 + payload.len() / 2)] {
         let r = run(enc, &d3, cut);
